@@ -66,8 +66,8 @@ def run_lines(cmd, cases, env=None, nshards=None, timeout=1800):
     return outs
 
 
-def impl(mode, cases, config="stable", env=None, **kw):
-    return run_lines([harness_build.cfh_bin(config), mode], cases, env=env, **kw)
+def impl(mode, cases, config="stable", env=None, variant=None, **kw):
+    return run_lines([harness_build.cfh_bin(config, variant), mode], cases, env=env, **kw)
 
 
 def model(mode, cases, **kw):
